@@ -334,7 +334,7 @@ def others(ctx):
     n = 150 if ctx.quick else 3000
     lines = []
     for _ in range(n):
-        lines.append('%d %d %d %d' % (ctx.rng.randint(0, 2 ** 31), ctx.rng.choice([0, 1, 2, 3, 9, 10, 11, 50, 200]), ctx.rng.choice([3, 10, 100, 1000]), ctx.rng.randint(2, 12)))
+        lines.append('%d %d %d %d' % (ctx.rng.randint(0, 2 ** 31), ctx.rng.choice([0, 1, 2, 3, 9, 10, 11, 16, 17, 32, 33, 50, 200, 255, 256, 257, 272, 273]), ctx.rng.choice([3, 10, 100, 1000]), ctx.rng.randint(2, 12)))
     out = ctx.run_lines([exe], lines, timeout=600)
     stats = {}
     for l, o in zip(lines, out):
